@@ -181,6 +181,17 @@ func TestC06_ConnectionStateFromResult(t *testing.T) {
 			if _, err := rcv.eKey.DecryptDanger(nil, pkt[:header.Len], pkt[header.Len:], c, nb); err == nil {
 				rt.Fatalf("%s: the receiver's sending key opens the ciphertext", label)
 			}
+			// the handshake Result's own receiving key of the peer (flynn/noise transport CipherState
+			// over the raw key) opens it: the ConnectionState sends with Result.EKey, not merely with
+			// some key the two wrappers agree on
+			peerD := rr.DKey.UnsafeKey()
+			if snd == rcs {
+				peerD = ir.DKey.UnsafeKey()
+			}
+			lib := noise.UnsafeNewCipherState(noise.NewCipherSuite(w.dh, cf, noise.HashSHA256), peerD, c)
+			if p2, err := lib.Decrypt(nil, pkt[:header.Len], pkt[header.Len:]); err != nil || !bytes.Equal(p2, pt) {
+				rt.Fatalf("%s: the peer Result's receiving key does not open the ConnectionState's ciphertext: %v", label, err)
+			}
 			got, err := rcv.Decrypt(l, c, c06Clone(pkt), nb)
 			if err != nil || !bytes.Equal(got, pt) {
 				rt.Fatalf("%s: receiver cannot decrypt counter %d: %v", label, c, err)
